@@ -16,6 +16,7 @@
 (*   [t |-> "N",    v |-> n]   the number n            (0 <= n < 2^31)     *)
 (*   [t |-> "HALF", v |-> k]   the number 2^255 - k    (0 <= k < 2^31)     *)
 (*   [t |-> "MAXU", v |-> k]   the number 2^256-1 - k  (0 <= k < 2^31)     *)
+(*   [t |-> "P64" / "P128", v |-> k]   2^64 - k / 2^128 - k (trace only)   *)
 (* with the comparison / subtraction rules of Leq / Sub below (the three   *)
 (* classes cannot overlap because k, n < 2^31).  Balances and supplies are *)
 (* plain naturals (< 2^31 in every model and every trace).                 *)
@@ -43,7 +44,7 @@ CONSTANTS
 N(n)  == [t |-> "N", v |-> n]
 MAXU  == [t |-> "MAXU", v |-> 0]
 HALF  == [t |-> "HALF", v |-> 0]
-Rank(x) == CASE x.t = "N" -> 0 [] x.t = "HALF" -> 1 [] x.t = "MAXU" -> 2 [] OTHER -> 3
+Rank(x) == CASE x.t = "N" -> 0 [] x.t = "P64" -> 1 [] x.t = "P128" -> 2 [] x.t = "HALF" -> 3 [] x.t = "MAXU" -> 4 [] OTHER -> 5
 Leq(x, y) == \/ Rank(x) < Rank(y)
              \/ Rank(x) = Rank(y) /\ (IF x.t = "N" THEN x.v <= y.v ELSE x.v >= y.v)
 Unrep == [t |-> "UNREPRESENTABLE", v |-> 0]
